@@ -113,6 +113,13 @@ M = [
  ('R2A-S1-dvec2-distance-squared-expanded', 'src/f64/dvec2.rs', r'485s/(self - rhs).length_squared()/self.length_squared() + rhs.length_squared() - 2.0 * self.dot(rhs)/', ['C02']),
 
  # round 3 (reviewers rt3a / rt3b / rt3c)
+ ('R3A-E1a-vec3-cmpge-nan', 'src/f32/vec3.rs', r'393s/self.z.ge(&rhs.z)/!self.z.lt(\&rhs.z)/', ['C01']),
+ ('R3A-E1b-vec4-cmpge-cmpnlt', 'src/f32/sse2/vec4.rs', r'411s/_mm_cmpge_ps/_mm_cmpnlt_ps/', ['C01']),
+ ('R3A-E1c-coresimd-vec4-cmpge-gt', 'src/f32/coresimd/vec4.rs', r'383s/simd_ge/simd_gt/', ['C01']),
+ ('R3A-E2a-dquat-as-quat-swapped', 'src/f64/dquat.rs', r'790s/self.z as f32, self.w as f32/self.w as f32, self.z as f32/', ['C05']),
+ ('R3A-E2b-coresimd-quat-as-dquat-swapped', 'src/f32/coresimd/quat.rs', r'833s/self.z as f64, self.w as f64/self.w as f64, self.z as f64/', ['C05']),
+ ('R3A-E3a-f32-minus-vec4-swapped', 'src/f32/sse2/vec4.rs', r'1560s/_mm_sub_ps(_mm_set1_ps(self), rhs.0)/_mm_sub_ps(rhs.0, _mm_set1_ps(self))/', ['C07']),
+ ('R3A-E4-mat2-mul-vec2-shuffle', 'src/f32/sse2/mat2.rs', r'322s/0b01_00_11_10/0b01_00_10_11/', ['C03']),
  ('R3C-EV7-debug-glam-assert-inverted', 'src/macros.rs', r's/all(debug_assertions, feature = "debug-glam-assert")/all(not(debug_assertions), feature = "debug-glam-assert")/', ['C20']),
  ('R3C-EV8-quat-deserialized-through-f32', 'src/features/impl_serde.rs', r'260s/let x = seq/let x: f32 = seq/;263s/let y = seq/let y: f32 = seq/;266s/let z = seq/let z: f32 = seq/;269s/let w = seq/let w: f32 = seq/;272s/from_xyzw(x, y, z, w)/from_xyzw(x as $t, y as $t, z as $t, w as $t)/', ['C19']),
  ('R3C-EV9-quat-deserialized-negated', 'src/features/impl_serde.rs', r'272s/Ok([$]quat::from_xyzw(x, y, z, w))/Ok(-$quat::from_xyzw(x, y, z, w))/', ['C19']),
